@@ -40,6 +40,22 @@ type eqNested struct {
 	In eqStruct
 	L  []string
 }
+type eqBytes struct {
+	Arr [2]byte
+	Sl  []byte
+}
+
+// c05Op: 1..6 the built-in comparison operators, 101 / 102 two user-defined operators.
+func c05Op(code int) stackage.Operator {
+	switch code {
+	case 101:
+		return userOp{"~=", "ctx"}
+	case 102:
+		return userOp{"=~", "ctx"}
+	}
+	return stackage.ComparisonOperator(code)
+}
+
 type eqPrivate struct {
 	A int
 	b int
@@ -137,7 +153,35 @@ func (n eqNode) build() any {
 	case "structU":
 		return eqPrivate{n.Vs[0], n.Vs[1]}
 	case "cond":
-		return stackage.Cond(n.Kw, stackage.ComparisonOperator(n.Op), n.Kids[0].build())
+		return stackage.Cond(n.Kw, c05Op(n.Op), n.Kids[0].build())
+	case "barr":
+		b := make([]byte, len(n.Vs))
+		for i, v := range n.Vs {
+			b[i] = byte(v)
+		}
+		switch n.Kind {
+		case "[3]byte":
+			var a [3]byte
+			copy(a[:], b)
+			return a
+		case "[]byte":
+			return b
+		case "*[3]byte":
+			var a [3]byte
+			copy(a[:], b)
+			return &a
+		case "[2]uint16":
+			return [2]uint16{uint16(n.Vs[0]), uint16(n.Vs[1])}
+		case "[2]bool":
+			return [2]bool{n.Vs[0]%2 == 1, n.Vs[1]%2 == 1}
+		case "struct{[2]byte}":
+			return eqBytes{[2]byte{b[0], b[1]}, b[2:]}
+		case "map[string][2]byte":
+			return map[string][2]byte{"k": {b[0], b[1]}}
+		case "[2][2]byte":
+			return [2][2]byte{{b[0], b[1]}, {b[2], b[2]}}
+		}
+		panic(n.Kind)
 	case "stack", "alias":
 		var s stackage.Stack
 		if n.Cap > 0 {
@@ -173,6 +217,8 @@ func (n eqNode) String() string {
 		return fmt.Sprintf("%s%v%q", n.T, n.Vs, n.Ss)
 	case "typed":
 		return fmt.Sprintf("%s(%d)", n.Kind, n.Vs[0])
+	case "barr":
+		return fmt.Sprintf("%s%v", n.Kind, n.Vs)
 	case "strs":
 		return fmt.Sprintf("%q", n.Ss)
 	case "map":
@@ -277,7 +323,7 @@ func (n eqNode) mutants() []eqNode {
 			}
 			add(m3, "anyslice bool element changed")
 		}
-	case "fslice", "ptr3", "typed":
+	case "fslice", "ptr3", "typed", "barr":
 		for i := range n.Vs {
 			m := cloneNode(n)
 			m.Vs[i] += 3
@@ -365,6 +411,12 @@ func (n eqNode) mutants() []eqNode {
 		m2 := cloneNode(n)
 		m2.Op = n.Op%6 + 1
 		add(m2, "Condition operator changed")
+		m3 := cloneNode(n)
+		m3.Op = 101
+		if n.Op == 101 {
+			m3.Op = 102
+		}
+		add(m3, "Condition operator replaced by a (different) user-defined operator")
 		for _, km := range n.Kids[0].mutants() {
 			m := cloneNode(n)
 			m.Kids[0] = km
@@ -395,7 +447,7 @@ func (n eqNode) mutants() []eqNode {
 		for i := 0; i+1 < len(n.Kids); i++ {
 			// IsEqual documents that it does not distinguish slices from arrays of equal content
 			// ... and that pointers are flattened at any depth (a *int 7 is the leaf value 7)
-			norm := strings.NewReplacer("array", "slice", "&", "", "pstruct", "struct", "alias:", "stack:")
+			norm := strings.NewReplacer("array", "slice", "&", "", "pstruct", "struct", "alias:", "stack:", "*[3]byte", "bytes", "[3]byte", "bytes", "[]byte", "bytes")
 			if norm.Replace(n.Kids[i].String()) != norm.Replace(n.Kids[i+1].String()) {
 				m5 := cloneNode(n)
 				m5.Kids[i], m5.Kids[i+1] = m5.Kids[i+1], m5.Kids[i]
@@ -425,6 +477,9 @@ func eqLeaves() []eqNode {
 		{T: "nstruct", Vs: []int{4, 5}, Ss: []string{"s", "l"}}, {T: "typed", Kind: "int64", Vs: []int{6}}, {T: "typed", Kind: "uint16", Vs: []int{6}},
 		{T: "typed", Kind: "float32", Vs: []int{6}}, {T: "typed", Kind: "complex128", Vs: []int{6}}, {T: "typed", Kind: "rune", Vs: []int{66}}, {T: "prim", V: "é日本"},
 		{T: "anyslice", Vs: []int{1}, Ss: []string{"a", "t"}}, {T: "anyarr", Vs: []int{1}, Ss: []string{"a"}},
+		{T: "barr", Kind: "[3]byte", Vs: []int{1, 2, 3}}, {T: "barr", Kind: "[]byte", Vs: []int{1, 2, 3}}, {T: "barr", Kind: "*[3]byte", Vs: []int{1, 2, 3}},
+		{T: "barr", Kind: "[2]uint16", Vs: []int{1, 2}}, {T: "barr", Kind: "[2]bool", Vs: []int{1, 2}}, {T: "barr", Kind: "struct{[2]byte}", Vs: []int{1, 2, 4}},
+		{T: "barr", Kind: "map[string][2]byte", Vs: []int{1, 2}}, {T: "barr", Kind: "[2][2]byte", Vs: []int{1, 2, 4}},
 	}
 }
 
@@ -555,6 +610,7 @@ func c05Trees(c *Ctx) []eqNode {
 	for _, l := range leaves[:7] {
 		elems = append(elems, eqNode{T: "cond", Kw: "kw", Op: 1, Kids: []eqNode{l}})
 	}
+	elems = append(elems, eqNode{T: "cond", Kw: "uk", Op: 101, Kids: []eqNode{leaves[1]}}, eqNode{T: "cond", Kw: "uk", Op: 102, Kids: []eqNode{leaves[0]}})
 	// nested stacks (depth 1) over a reduced leaf set
 	small := []eqNode{leaves[0], leaves[1], leaves[7], leaves[10]}
 	var nested []eqNode
